@@ -397,6 +397,13 @@ def run_random(ctx, rdp, case):
             iarg = idx.astype(dt)
             ctx.h('position_dtype', dt)
     call_mapping(ctx, rdp, iarg, red, removed)
+    if len(removed) >= 2:
+        # the same table in other storage: column-major (what np.vstack((starts, counts)).T gives) and a strided view
+        ctx.h('removed_storage', 'fortran + strided view')
+        call_mapping(ctx, rdp, iarg, red, np.asfortranarray(removed))
+        wide = np.full((len(removed), 5), -7, dtype=removed.dtype)
+        wide[:, 1::2][:, :2] = removed
+        call_mapping(ctx, rdp, iarg, red, wide[:, 1::2][:, :2])
     perm = np.asarray(case['perm'], dtype=int)
     call_mapping(ctx, rdp, iarg, red, removed[perm], False)
     call_mapping(ctx, rdp, iarg, red, removed, False)     # any row order includes the sorted one
